@@ -219,6 +219,26 @@ def make_inputs(r, tier):
         for w in (20, 40, 60, 80):
             for extra in ("", "ls_code_width=true\n", "indent_columns=8\n"):
                 cases.append(("valid-width", L, "code_width=%d\n%s" % (w, extra), text.encode()))
+    # valid programs nested to depths around the powers of two (tables indexed by level / brace level, grown on demand; round-4 seed:
+    # align_func_proto()'s level table started at 16 and grew on '>' instead of '>='), under every alignment span and the mod_ sets
+    spans = "".join("%s=3\n" % o["name"] for o in lx.ws_options() if o["name"].startswith("align_") and o["name"].endswith("_span"))
+    deep_cfgs = [spans, spans + "align_on_tabstop=true\nindent_paren_nl=true\nindent_square_nl=true\n", MODS, MODS2, ""]
+    for d in (15, 16, 17, 31, 32, 33, 64, 65):
+        deep = [("C", "int v = " + "(" * d + "\n1" + ")" * d + ";\n"),
+                ("C", "int v = " + "(" * d + "1" + ")" * d + ";\nint w;\n"),
+                ("C", "void f(void)\n" + "".join("{\n" for _ in range(d)) + "x = 1;\n" + "".join("}\n" for _ in range(d))),
+                ("C", "void f(void)\n{\n" + "".join("if (a%d)\n{\n" % k for k in range(d)) + "x = 1;\n" + "".join("}\n" for _ in range(d)) + "}\n"),
+                ("C", "void f(void)\n{\nx = " + "".join("a[" for _ in range(d)) + "\n0" + "]" * d + ";\n}\n"),
+                ("C", "int m[] = " + "{" * d + " 1, 2 " + "}" * d + ";\n"),
+                ("CPP", "int g(int a = " + "f(" * d + "1" + ")" * d + ",\n      int b = 2);\nint h(int);\n"),
+                ("CPP", "A<" * d + "int" + (" >" * d) + " v;\nint f();\nlong gg();\n"),
+                ("CPP", "".join("namespace n%d {\n" % k for k in range(d)) + "int f();\nlong g();\n" + "}\n" * d),
+                ("JAVA", "class K { void f() { x = " + "(" * d + "1" + ")" * d + "; } }\n")]
+        for L, text in deep:
+            for ci, cfg in enumerate(deep_cfgs):
+                if tier == "quick" and d > 33 and ci > 1:
+                    continue
+                cases.append(("valid-deep:%d" % d, L, cfg, text.encode()))
     from .. import cprogs
     for i in range(6 if tier == "quick" else 120):
         cpp = i % 2 == 1
